@@ -177,10 +177,52 @@ Proof.
   destruct b as [|c b]; cbn [find is_empty negb first_nonempty]; [exact IH|reflexivity].
 Qed.
 
+(* The same fact independent of how the selection is spelled AFTER the `find` (`.map(..).unwrap_or(..)`, `.map_or(.., ..)`,
+   `match`, `if let`): `find p bufs`, for ANY predicate that is pointwise "not empty", is `Some` of the hand model's
+   first_nonempty, or `None` when that is empty; the case analysis on first_nonempty then decides every spelling. *)
+Lemma find_first_nonempty (p : list N -> bool) (bufs : list (list N)) :
+  (forall b, p b = negb (is_empty b)) ->
+  find p bufs = match first_nonempty bufs with [] => None | b => Some b end.
+Proof.
+  intros Hp. induction bufs as [|b rest IH]; [reflexivity|].
+  cbn [find first_nonempty]. rewrite Hp. destruct b as [|c b]; cbn [is_empty negb]; [exact IH|reflexivity].
+Qed.
+
+(* the selection written as a loop: `for buf in bufs { if !buf.is_empty() { return <call on buf>; } } <call on &[]>` --
+   ANY loop body that passes over an empty buffer and returns what the call [G] answers on a non-empty one *)
+Lemma for_list_first_nonempty {S R : Type} (F : list N -> S -> option (lctl S R)) (G : S -> list N -> option R) :
+  (forall s, F [] s = Some (LNext s)) ->
+  (forall c b s, F (c :: b) s = match G s (c :: b) with Some r => Some (LRet r) | None => None end) ->
+  forall bufs s,
+    for_list F bufs s = match first_nonempty bufs with
+                        | [] => Some (inl s)
+                        | b => match G s b with Some r => Some (inr r) | None => None end
+                        end.
+Proof.
+  intros H0 H1. induction bufs as [|b rest IH]; intros s; [reflexivity|].
+  cbn [for_list first_nonempty]. destruct b as [|c b].
+  - rewrite H0. apply IH.
+  - rewrite H1. destruct (G s (c :: b)); reflexivity.
+Qed.
+
+(* [W] is the translated `write` the selected buffer is handed to (only the loop spelling needs to know it) *)
+Ltac select_first_nonempty W bufs :=
+  first
+  [ match goal with
+    | |- context [find ?p bufs] => rewrite (find_first_nonempty p bufs) by (intros [|? ?]; reflexivity)
+    end
+  | match goal with
+    | |- context [for_list ?F bufs] =>
+        rewrite (for_list_first_nonempty F (fun s b => match W s b with Some (o, r) => Some (o, r) | None => None end))
+          by (intros; cbn [is_empty negb];
+              try match goal with |- context [W ?a ?b] => destruct (W a b) as [[? ?]|] end; reflexivity)
+    end ];
+  destruct (first_nonempty bufs); cbn [opt_unwrap_or option_map].
+
 Lemma g_ss_write_vectored_first x bufs : g_ss_write_vectored x bufs = g_ss_write x (first_nonempty bufs).
 Proof.
-  unfold g_ss_write_vectored. cbv zeta. rewrite find_nonempty_is_first_nonempty.
-  destruct (g_ss_write x (first_nonempty bufs)) as [[x1 r]|]; reflexivity.
+  unfold g_ss_write_vectored. cbv zeta. select_first_nonempty g_ss_write bufs.
+  all: match goal with |- context [g_ss_write ?y ?b] => destruct (g_ss_write y b) as [[? ?]|] end; reflexivity.
 Qed.
 
 (* ---- the entry point: one operation of the stream, and whole operation sequences ---------- *)
